@@ -215,10 +215,8 @@ func runReal(c rCase) (viol string, inconclusive bool, answered int64) {
 			}(i)
 		}
 		go func() { wg.Wait(); close(done) }()
-		select {
-		case <-done:
-		case <-time.After(90 * time.Second):
-			return "", true, answered
+		if v, inc := awaitClients(done, &answered); v != "" || inc {
+			return v, inc, answered
 		}
 		for i := 0; i < c.Clients; i++ {
 			w.conns[i].ws.Close()
@@ -347,10 +345,8 @@ func runReal(c rCase) (viol string, inconclusive bool, answered int64) {
 			}(i)
 		}
 		go func() { wg.Wait(); close(done) }()
-		select {
-		case <-done:
-		case <-time.After(90 * time.Second):
-			return "", true, answered
+		if v, inc := awaitClients(done, &answered); v != "" || inc {
+			return v, inc, answered
 		}
 		for i := range clients {
 			clients[i].rh.HandleDisconnect(nil)
@@ -376,6 +372,31 @@ func runReal(c rCase) (viol string, inconclusive bool, answered int64) {
 		}
 	}
 	return "", false, answered
+}
+
+// awaitClients waits for the clients to finish. The machine may be busy, so slowness is
+// inconclusive (120 s watchdog); but if not a single request is answered for 45 s while clients
+// are still at work, the requests block one another (C09: "never block one another forever").
+func awaitClients(done chan struct{}, answered *int64) (viol string, inconclusive bool) {
+	start, lastChange, last := time.Now(), time.Now(), atomic.LoadInt64(answered)
+	tick := time.NewTicker(500 * time.Millisecond)
+	defer tick.Stop()
+	for {
+		select {
+		case <-done:
+			return "", false
+		case <-tick.C:
+			if n := atomic.LoadInt64(answered); n != last {
+				last, lastChange = n, time.Now()
+			}
+			if time.Since(lastChange) > 45*time.Second {
+				return fmt.Sprintf("no request has been answered for 45 s (%d answered before) while clients are still waiting: requests block one another", last), false
+			}
+			if time.Since(start) > 120*time.Second {
+				return "", true
+			}
+		}
+	}
 }
 
 type respFunc func(hwebsocket.Msg)
@@ -418,7 +439,7 @@ func waitInbox(c *wConn, req uint32, timeout time.Duration, types ...int32) (Rx,
 }
 
 func TestC09Race(t *testing.T) {
-	col := NewCollector("C09", "R", "real goroutines, real time, binary built with -race: 2-16 clients in 1-2 shared sessions, all modules, 30-200 requests each from a seeded mix of all request kinds (entity add/delete/pose, custom, component add/update/delete/list, subscribe/unsubscribe, entity action, asset add, ground-plane sample/ray/region/debug, ping), the session creators switching sessions first; wire variant = websocket.Handle with HandlerWithLogs (3 ms summaries) + HandlerWithMetrics over net.Pipe with clients that keep reading, bare variant = handlers called directly; oracles: Go race detector (any report fails the test), every request answered, every client finishes (90 s watchdog = inconclusive), no panic, nothing left behind; non-trivial = distinct execution in which >=2 clients issued >=20 answered requests each")
+	col := NewCollector("C09", "R", "real goroutines, real time, binary built with -race: 2-16 clients in 1-2 shared sessions, all modules, 30-200 requests each from a seeded mix of all request kinds (entity add/delete/pose, custom, component add/update/delete/list, subscribe/unsubscribe, entity action, asset add, ground-plane sample/ray/region/debug, ping), the session creators switching sessions first; wire variant = websocket.Handle with HandlerWithLogs (3 ms summaries) + HandlerWithMetrics over net.Pipe with clients that keep reading, bare variant = handlers called directly; oracles: Go race detector (any report fails the test), every request answered, every client finishes (no request answered for 45 s while clients wait = requests block one another; otherwise a 120 s watchdog is inconclusive), no panic, nothing left behind; non-trivial = distinct execution in which >=2 clients issued >=20 answered requests each")
 	t.Cleanup(col.Write)
 	if rp := os.Getenv("VERIF_REPLAY"); rp != "" {
 		var c rCase
@@ -432,6 +453,12 @@ func TestC09Race(t *testing.T) {
 		}
 		return
 	}
+	cases, inconclusiveCases := 0, 0
+	defer func() {
+		if cases >= 4 && inconclusiveCases*2 > cases && !t.Failed() {
+			t.Fatalf("no verdict: %d of %d executions hit the watchdog", inconclusiveCases, cases)
+		}
+	}()
 	rapid.Check(t, func(rt *rapid.T) {
 		c := rCase{Clients: 2 + uni(rt, "clients", 15), Sessions: 1 + uni(rt, "sessions", 2), Ops: 30 + uni(rt, "ops", 171), Seed: int64(uni(rt, "seed", 1<<15)), Wire: uni(rt, "wire", 2) == 0}
 		if c.Sessions > c.Clients {
@@ -443,6 +470,10 @@ func TestC09Race(t *testing.T) {
 			variant = "wire"
 		}
 		col.Case(fmt.Sprintf("%+v", c), v == "" && !inconclusive && answered >= int64(40), map[string]int{"variant_" + variant: 1, "inconclusive": b2i(inconclusive)}, func() any { return c })
+		cases++
+		if inconclusive {
+			inconclusiveCases++
+		}
 		if v != "" {
 			col.Violations++
 			saveCase("C09", c)
